@@ -75,7 +75,7 @@ pub fn explains(f: &Finding, sc: &Scenario, v: &Violation, root_text: &str) -> b
                 return false;
             }
             let space = crate::oracle::Space::of(w, root_text);
-            let texts = pf.texts();
+            let texts = crate::exec::subst_pattern(pf, root_text).texts();
             let exhaustive: Vec<wax::Glob> = texts
                 .iter()
                 .filter_map(|t| wax::Glob::new(t).ok())
